@@ -258,6 +258,23 @@ func init() {
 			}
 		}
 
+		// ---- push headers with extreme length claims ----------------------
+		c.Phase("extreme-length-claims") // claims on the edge of the integer types: header + claim wraps in 32 bits for the largest
+		n = 0
+		for _, h := range [][]byte{{0x4c, 0xff}, {0x4d, 0xff, 0xff}, {0x4d, 0xfd, 0xff},
+			{0x4e, 0xff, 0xff, 0xff, 0xff}, {0x4e, 0xfe, 0xff, 0xff, 0xff}, {0x4e, 0xfd, 0xff, 0xff, 0xff}, {0x4e, 0xfc, 0xff, 0xff, 0xff}, {0x4e, 0xfb, 0xff, 0xff, 0xff}, {0x4e, 0xfa, 0xff, 0xff, 0xff},
+			{0x4e, 0xf0, 0xff, 0xff, 0xff}, {0x4e, 0xff, 0xff, 0xff, 0x7f}, {0x4e, 0x00, 0x00, 0x00, 0x80}, {0x4e, 0xfb, 0xff, 0xff, 0x7f}, {0x4e, 0x00, 0x00, 0x00, 0x01}} {
+			for _, pre := range [][]byte{{}, {0x51}, {0x76, 0xa9}, {0x02, 0xaa, 0xbb}, {0x63}} {
+				for tail := 0; tail <= 8; tail++ {
+					if !next() {
+						continue
+					}
+					s := append(append(append([]byte{}, pre...), h...), bytes.Repeat([]byte{0x51}, tail)...)
+					script(c, &c13Script{Script: s, Class: "extreme-length-claim"})
+				}
+			}
+		}
+
 		// ---- random token sequences -------------------------------------
 		c.Phase("random-scripts")
 		ns := 6000
